@@ -221,6 +221,9 @@ class Run:
             item = (n, entry['act'])
             if at == 'q':
                 self._q_plan.append(item)
+            elif at == 'q+':
+                # back to back with the previous quiescent-point action (no loop iteration in between)
+                self._q_plan.append(item + ('glued',))
             elif isinstance(at, int):
                 self._slot_plan.setdefault(at, []).append(item)
             else:
@@ -537,6 +540,9 @@ class Run:
             if self._q_plan:
                 item = self._q_plan.pop(0)
                 self.apply(item[1], via='q', plan_idx=item[0])
+                while self._q_plan and len(self._q_plan[0]) > 2:
+                    item = self._q_plan.pop(0)
+                    self.apply(item[1], via='q', plan_idx=item[0])
                 continue
             before = len(self.acts)
             self._fire_event_triggers()
